@@ -48,6 +48,6 @@ func TestVerif_Convergence(t *testing.T) {
 	r := vkit.Start(t, "C14", "convergence", "exploration", rule)
 	r.Assume("bounded liveness in virtual time: 2 x RetryBackoffMax + (objects+5) x (limiter interval + 35 ms) + 1 s after failures and changes stop", "the reconciler is driven through hive's job group inside a synctest bubble; real-timer behaviour is out of scope")
 	r.Require("operation_attempts", "failed_attempts", "convergence_checks", "user_writes")
-	run(t, r, vkit.N(600, 40000), map[string]bool{"conv": true}, false)
+	run(t, r, vkit.N(6000, 120000), map[string]bool{"conv": true}, false)
 	r.Finish()
 }
